@@ -622,6 +622,7 @@ impl S3 for FileSystem {
         let mut src_file = fs::File::open(&src_path).await.map_err(|e| s3_error!(e, NoSuchKey))?;
         let file_len = try_!(src_file.metadata().await).len();
 
+        // the range as (first position, position after the last one): an empty source has no last position to name
         let (start, end) = if let Some(copy_range) = &input.copy_source_range {
             if !copy_range.starts_with("bytes=") {
                 return Err(s3_error!(InvalidArgument));
@@ -633,16 +634,17 @@ impl S3 for FileSystem {
             }
 
             let start: u64 = parts[0].parse().map_err(|_| s3_error!(InvalidArgument))?;
-            let mut end = file_len - 1;
+            let mut end = file_len;
             if parts[1].is_empty().not() {
-                end = parts[1].parse().map_err(|_| s3_error!(InvalidArgument))?;
+                let last: u64 = parts[1].parse().map_err(|_| s3_error!(InvalidArgument))?;
+                end = last.checked_add(1).ok_or_else(|| s3_error!(InvalidArgument))?;
             }
             (start, end)
         } else {
-            (0, file_len - 1)
+            (0, file_len)
         };
 
-        let content_length = end - start + 1;
+        let content_length = end.checked_sub(start).ok_or_else(|| s3_error!(InvalidRange))?;
         let content_length_usize = try_!(usize::try_from(content_length));
 
         let _ = try_!(src_file.seek(io::SeekFrom::Start(start)).await);
